@@ -1374,6 +1374,19 @@ def _b6_field_path(proj, closure=False):
 def _b6_self_field_term(t, depth=0, closure=False):
     """Resolved MIR term -> field path below `self`, or None."""
     names = []
+    # `a0 + run` with `let a0 = self.old_current;`: the range starts at the cursor field plus what was already reported
+    t0 = t
+    for _ in range(3):
+        if isinstance(t0, tuple) and t0 and t0[0] in ("ref", "deref", "cast"):
+            t0 = t0[1]
+    if isinstance(t0, tuple) and t0 and t0[0] == "field" and str(t0[2]) == "0" and isinstance(t0[1], tuple) and t0[1] and t0[1][0] == "binop":
+        t0 = t0[1]
+    if isinstance(t0, tuple) and t0 and t0[0] == "binop" and str(t0[1]).startswith("Add") and depth < 6:
+        for side in (t0[2], t0[3]):
+            r_ = _b6_self_field_term(side, depth + 1, closure)
+            if r_:
+                return r_
+        return None
     while isinstance(t, tuple) and t and depth < 12:
         depth += 1
         if t[0] == "field":
